@@ -15,7 +15,7 @@ import (
 )
 
 func genCrash(g *Gen) {
-	nHist := g.Scale(12, 60)
+	nHist := g.Scale(12, 100)
 	for h := 0; h < nHist; h++ {
 		bg := h%3 == 2
 		rw := newLineRewriter(g, "crash")
@@ -78,7 +78,12 @@ func genCrash(g *Gen) {
 				// not while an import is in progress: an unconfirmed transaction that arrives during
 				// the import is dropped for the importing wallet (C07's subject), and a restarted
 				// wallet finishes its import at once - the two runs would differ by worker timing
+				// and only while the follower is caught up: proccessReceivedTx drops unconfirmed
+				// transactions unless synced-to >= best height - 1 (the harness enters below that gate);
+				// a transaction accepted by a wallet that lags far behind makes the pending set depend on
+				// the order of later rollbacks (C09's subject, see notes/C06.md A4 / F1)
 				if !(bg && impState == 2) {
+					l.drain()
 					prunePool(l)
 					l.recv()
 				}
